@@ -361,6 +361,7 @@ RUNTIME_SCENARIOS = [
     ("write-to-missing-dir", "A = EEMSRead(InFileName = in.csv, InFieldName = a)\nW = EEMSWrite(OutFileName = nodir/out.csv, OutFieldNames = [A])\n", {}),
     ("write-2d-unsupported", "A = EEMSRead(InFileName = in.csv, InFieldName = a)\nW = EEMSWrite(OutFileName = out.csv, OutFieldNames = [])\n", {}),
     ("dtype-integer-fraction", "A = EEMSRead(InFileName = frac.csv, InFieldName = a, DataType = Integer, MissingVal = 2.5)\n", {"frac.csv": "a\n1.5\n2.5\n"}),
+    ("syntax-list-mixes-pair", "A = EEMSRead(InFileName = in.csv, InFieldName = a, Metadata = [1, a:b])\n", {}),
     ("syntax-unbalanced", "A = EEMSRead(InFileName = in.csv, InFieldName = a\n", {}),
     ("syntax-bad-char", "A = EEMSRead(InFileName = in.csv, InFieldName = \"a)\n", {}),
     ("ok-model", "A = EEMSRead(InFileName = in.csv, InFieldName = a)\nF = CvtToFuzzy(InFieldName = A)\nW = EEMSWrite(OutFileName = out.csv, OutFieldNames = [A, F])\n", {}),
